@@ -785,6 +785,11 @@ class ExprMixin:
                 sig = self.resolve_free(name, e.line, must=True)
                 return self.call_sig(sig, list(e.args), e.line)
             # multi-segment path
+            if names[-1] in ('min', 'max') and names[-2] == 'cmp' and len(e.args) == 2:
+                a_, at = self.ex(e.args[0])
+                b_, bt = self.ex(e.args[1])
+                unify(at, bt)
+                return '%s %s %s' % (names[-1], par(a_), par(b_)), at
             var = self.resolve_variant(names)
             if var is not None:
                 return self.variant_call(var, e)
